@@ -70,6 +70,12 @@ fn run_n<const N: usize>(cfg: &Cfg, src: &mut dyn Source, hard_cap: usize, recor
         }
         idx += 1;
     }
+    if failure.is_none() && ex.view.cfg.sweep_every > 1 {
+        if let Err(mut f) = ex.final_sweep() {
+            f.step = idx.saturating_sub(1);
+            failure = Some(f);
+        }
+    }
     if failure.is_none() && ex.view.must_crash {
         // the run ended inside a dying save(): let the process die and restart once
         if let Err(mut f) = ex.do_crash(&[], &[]) {
